@@ -749,3 +749,6 @@ add("C09", "apply-skips-files-failed-earlier", BC,
 add("C01", "timeout-appended-where-rule-allows-it", "core_codemods/add_requests_timeouts.py",
     [("            - pattern-not: requests.$CALL(..., timeout=$TIMEOUT, ...)\n", "            - pattern-not: requests.$CALL(..., timeout=$TIMEOUT, verify=False, ...)\n")],
     "fire", "R-NO-DUP-KEYWORD", "add-requests-timeouts")
+add("C12", "semgrep-accumulation-returns-early", "core_codemods/sonar/api.py",
+    [("        combined_result_set |= SonarResultSet.from_json(file)\n", "        combined_result_set |= SonarResultSet.from_json(file)\n        if not combined_result_set:\n            return combined_result_set\n")],
+    "fire", "R-EVERY-INPUT-READ", "process_sonar_findings")
